@@ -121,7 +121,21 @@ def r17_2(prog, out):
                 if msg == "BoundsCheck":
                     bad.append((blk.idx, "index bounds check"))
                 elif msg in ("DivisionByZero", "RemainderByZero"):
-                    bad.append((blk.idx, msg))
+                    # only a divisor the request can influence makes this `panics on some inputs` (`hash % self.slots.len()` of a
+                    # fixed-size table does not)
+                    dep = True
+                    for st in blk.stmts:
+                        if st.k == "assign" and st.rv.k == "bin" and st.rv.j["op"] == "Eq" and any(o.const_int() == 0 for o in st.rv.ops):
+                            dv = [o for o in st.rv.ops if o.place is not None]
+                            if dv:
+                                sd = Slicer(prog).of_resolved(bid, dv[0])
+                                dep = any(f[0].startswith("crate::pubsub_proto") for f in sd.fields) or any(
+                                    r[0] == "param" and (prog.facts.body(r[1]) is not None and (prog.facts.body(r[1]).local_ty(r[2]) or "") in ("&str", "std::string::String", "&std::string::String"))
+                                    for r in sd.roots) or any(r[0] == "unknown" for r in sd.roots)
+                    if dep:
+                        bad.append((blk.idx, msg))
+                    else:
+                        notes.append("%s on a divisor that does not depend on the request at %s" % (msg, bi.loc(blk.idx)))
                 elif msg == "Overflow":
                     notes.append("overflow-checked arithmetic at %s" % bi.loc(blk.idx))
         key = "parser:%s" % prog.short(bid)
